@@ -35,6 +35,7 @@ def run(chk):
     r6(chk, prog, m)
     r7_structure(chk, prog, m)
     r8_doubles(chk, prog, m)
+    r9_scalar_copy(chk, prog, m)
     with chk.shared():
         c11.r7(chk, prog, prog.module("json_object.c"))   # shared: the sign-encoded string length is decoded before use
     chk.undecided_clauses += [
@@ -945,3 +946,113 @@ def r8_doubles(chk, prog, m):
     else:
         chk.proven(rid, f.name, "doubles", f.entry.term.locstr(), "IEEE equality on %d pairs" % n)
     chk.floor(rid, n, 20, "pairs of double values")
+
+
+# ---------------------------------------------------------------------------
+# R9 a scalar's copy is equal to the scalar, for every representable field value
+def r9_scalar_copy(chk, prog, m):
+    rid = "C09.R9"
+    chk.rule(rid, "the copy of a scalar node is equal to the node for every value its fields can hold, not only the canonical ones: "
+                  "json_c_shallow_copy_default evaluated on a boolean node holding each value that json_object_set_boolean, "
+                  "evaluated on the arguments 0, 1, 2, -1, leaves in the node; then json_object_equal evaluated on the source and the node the copy created")
+    fc = m.functions.get("json_c_shallow_copy_default")
+    fe = m.functions.get("json_object_equal")
+    chk.require(fc is not None and not fc.is_decl and fe is not None and not fe.is_decl, "json_c_shallow_copy_default / json_object_equal not found")
+    chk.touched(fc)
+    names = m.struct_fields("%struct.json_object_boolean")
+    if not names or "c_boolean" not in names:
+        chk.undecided(rid, fc.name, "boolean", fc.entry.term.locstr(), "layout of struct json_object_boolean not found")
+        return
+
+    class SPE(_EqPE):
+        def __init__(self, raw):
+            super().__init__(prog, m, "array", [], [])
+            self.types = {"s1": "%struct.json_object_boolean", "new": "%struct.json_object_boolean"}
+            self.raw = raw
+            self.nalloc = 0
+            self.calls = []
+
+        def should_inline(self, g, instr):
+            return not g.is_decl
+
+        def init_mem(self, state, base, path, t):
+            if base != "s1":
+                return pe.TOP
+            nm = self._names(base, path)
+            if nm in (("base", "o_type"), ("o_type",)):
+                return pe.C(TYPES["boolean"])
+            if nm == ("c_boolean",):
+                return pe.C(self.raw)
+            return pe.TOP
+
+        def call_model(self, state, frame, i, args):
+            nm = i.callee or ""
+            if nm in ("malloc", "calloc"):
+                self.nalloc += 1
+                return ("ptr", "new", ()) if self.nalloc == 1 else None
+            if nm == "__errno_location":
+                return ("ptr", "errno", ())
+            if nm == "__assert_fail":
+                return "STOP"
+            if nm.startswith("llvm."):
+                return None
+            self.calls.append(nm)
+            return None
+    bad = und = None
+    n = 0
+    # the stored values that exist: what json_object_set_boolean leaves in the node for the arguments 0, 1, 2, -1
+    fs = m.functions.get("json_object_set_boolean")
+    stored = set()
+    if fs is not None and not fs.is_decl:
+        for x in (0, 1, 2, -1):
+            h0 = SPE(0)
+            try:
+                lv = h0.run(fs, [("ptr", "s1", ()), pe.C(x)], pe.State())
+            except Exception:
+                continue
+            for lf in lv:
+                if lf.kind == "ret":
+                    for (b, pth), v in lf.state.mem.items():
+                        if b == "s1" and h0._names("s1", pth) == ("c_boolean",) and pe.is_const(v):
+                            stored.add(v[1])
+    if not stored:
+        chk.undecided(rid, fc.name, "boolean", fc.entry.term.locstr(), "the values json_object_set_boolean stores could not be evaluated")
+        return
+    chk.tables["boolean_values_the_setter_stores"] = sorted(stored)
+    for raw in sorted(stored):
+        h = SPE(raw)
+        try:
+            leaves = h.run(fc, [("ptr", "s1", ()), pe.C(0), pe.C(0), pe.C(0), ("ptr", "dstslot", ())], pe.State())
+        except Exception as e:
+            und = und or "boolean %d: %s" % (raw, e)
+            continue
+        rets = [lf for lf in leaves if lf.kind == "ret"]
+        dv = h.load(rets[0].state, ("ptr", "dstslot", ()), None) if len(rets) == 1 else None
+        if len(rets) != 1 or len(leaves) != 1 or h.nalloc != 1 or not (isinstance(dv, tuple) and dv[0] == "ptr" and dv[1] == "new"
+                                                                         and not [x for x in dv[2] if x != ("i", 0) and not (isinstance(x, tuple) and x[0] == "f" and x[2] == 0)]):
+            und = und or "boolean %d: the copy does not end in one return with one new node%s" % (raw, (" (calls: %s)" % ", ".join(sorted(set(h.calls)))) if h.calls else "")
+            continue
+        st = rets[0].state.copy()
+        got = [v for (b, pth), v in st.mem.items() if b == "new" and h._names("new", pth) == ("c_boolean",)]
+        h2 = SPE(raw)
+        try:
+            leaves2 = h2.run(fe, [("ptr", "s1", ()), ("ptr", "new", ())], st)   # dv is the address of the node's first member
+        except Exception as e:
+            und = und or "boolean %d: equal: %s" % (raw, e)
+            continue
+        rets2 = [lf for lf in leaves2 if lf.kind == "ret"]
+        if len(rets2) != 1 or len(leaves2) != 1 or rets2[0].value is None or not pe.is_const(rets2[0].value):
+            und = und or "boolean %d: json_object_equal on the node and its copy does not end in one concrete result" % raw
+            continue
+        n += 1
+        if rets2[0].value[1] == 0 and bad is None:
+            bad = ("a boolean node whose stored value is %d (json_object_set_boolean leaves that value in the node) is copied to a node "
+                   "holding %s, and json_object_equal(node, copy) is 0: the deep copy is not equal to its source"
+                   % (raw, got[0][1] if got and pe.is_const(got[0]) else "another value"))
+    if bad:
+        chk.refuted(rid, fc.name, "boolean", fc.entry.term.locstr(), bad)
+    elif und:
+        chk.undecided(rid, fc.name, "boolean", fc.entry.term.locstr(), und)
+    else:
+        chk.proven(rid, fc.name, "boolean", fc.entry.term.locstr(), "copy equal to source for %d stored values" % n)
+    chk.floor(rid, n, 2, "stored boolean values copied and compared")
